@@ -8,9 +8,9 @@ import (
 // C20: ill-formed graphs are rejected deterministically; compiled graphs are immutable.
 
 type c20Op struct {
-	kind     int // 0 lambda, 1 passthrough, 2 edge, 3 branch
-	a, b, c  string
-	name     string
+	kind    int // 0 lambda, 1 passthrough, 2 edge, 3 branch
+	a, b, c string
+	name    string
 }
 
 var c20Catalog = []c20Op{
